@@ -13,6 +13,8 @@ Tags(name) ==
   IF name = "A_Fail" /\ (shadow # <<>> \/ q # <<>>) THEN {"fail_with_diverted_writes"}
   ELSE IF name = "A_End" /\ (shadow # <<>> \/ q # <<>>) THEN {"end_with_diverted_writes"}
   ELSE IF name = "W_Close" /\ mode THEN {"close_in_snapshot_mode"}
+  \* only reachable with CaptureWaits = FALSE: the step the capture barrier forbids (refusal probes replay these)
+  ELSE IF name = "A_Capture" /\ InFlight THEN {"capture_in_gap"}
   ELSE {}
 L(a, name, c) == a /\ h' = Append(h, [a |-> name, c |-> c]) /\ cov' = cov \cup Tags(name)
 
